@@ -28,7 +28,8 @@ Pool == << R(<<"1.1.1.1">>, "", "", "", "host", "replace", <<>>),               
            R(<<"2001::1">>, "10.0.0.5", "", "", "host", "replace", <<"udp4">>),   \* 17 explicit v4 local, v6 external, v4 networks: applies
            R(<<"2001::2">>, "10.0.0.5", "", "", "host", "replace", <<"udp6">>),   \* 18 ... v6 networks: applies to nothing
            R(<<"2.2.2.2">>, "", "", "fd00::/8", "host", "replace", <<"udp6">>),   \* 19 v4 external scoped to a v6 CIDR, v6 networks: applies
-           R(<<"1.1.1.1">>, "", "", "fd00::/8", "host", "replace", <<"tcp4">>) >> \* 20 ... v4 networks: applies to nothing
+           R(<<"1.1.1.1">>, "", "", "fd00::/8", "host", "replace", <<"tcp4">>),   \* 20 ... v4 networks: applies to nothing
+           R(<<"2.2.2.2">>, "10.0.0.5", "e0", "", "host", "replace", <<>>) >>      \* 21 explicit local restricted to an interface: looked up from elsewhere a later pin (5, 6) decides
 \* rules that must be refused at construction
 Bad == << R(<<"bad">>, "", "", "", "host", "replace", <<>>),
           R(<<"1.1.1.1/24">>, "", "", "", "host", "replace", <<>>),
